@@ -7,7 +7,8 @@
    implementation's outputs.  NOT proved: that agreement at every witness of the arrangement implies
    agreement at every point of Q^2 (DESIGN.md 4.1), and nothing about the float re-noding. *)
 From Coq Require Import QArith List Bool ZArith.
-From SF Require Import Base.GeomAST Base.Outcome Base.QKernel Base.Planar Model.SetOpSpec Proofs.SetOpSpec_proofs.
+From SF Require Import Base.GeomAST Base.Outcome Base.QKernel Base.Planar Model.SetOpSpec Proofs.SetOpSpec_proofs
+  Proofs.SetOpSpec_arr_proofs.
 Import ListNotations.
 Open Scope Q_scope.
 
@@ -162,11 +163,25 @@ Theorem area_symdiff : forall L P a b,
 Proof. exact area_symdiff_lemma. Qed.
 Print Assumptions area_symdiff.
 
+(* the exact area functional is non-negative and monotone (events and slab heights are strictly
+   increasing, so every trapezoid has a non-negative area) *)
+Theorem area_monotone : forall L P f g,
+  (forall p, f p = true -> g p = true) -> 0 <= area_of L P f /\ area_of L P f <= area_of L P g.
+Proof. exact area_monotone_lemma. Qed.
+Print Assumptions area_monotone.
+
 (* ================================================================ the oracle ================== *)
 (* the incidence-annotated witnesses are exactly Planar's witnesses (points, tags, order) *)
 Theorem witnesses_nb_strip : forall L P, map strip (witnesses_nb L P) = witnesses L P.
 Proof. exact witnesses_nb_strip_lemma. Qed.
 Print Assumptions witnesses_nb_strip.
+
+(* every cell named as incident to a witness is a witness of the same arrangement: the closure test
+   only ever consults cells of the arrangement *)
+Theorem wnb_are_witnesses : forall L P w q,
+  In w (witnesses_nb L P) -> In q (wnb w) -> exists d, In (q, d) (witnesses L P).
+Proof. exact wnb_are_witnesses_lemma. Qed.
+Print Assumptions wnb_are_witnesses.
 
 (* kernel (Planar_proofs.vertex_set_spec, QKernel.seg_seg_sound): a dimension-0 witness is a segment
    end, an isolated point, or lies on both segments that define it *)
